@@ -343,6 +343,45 @@ async fn poison(srv: &Server, rng: &mut Rng, cases: u64, tag: &str) {
             }
             prefix.push(format!("{{\"what\":{:?},\"wire\":{}}}", desc, w.json()));
         }
+        // a slow client: ONE RESP connection fed several commands one byte per write; every command must be answered on it
+        let slow = {
+            let b = 10i64;
+            let key = format!("{tag}slow{c}");
+            let ncmd = 8usize;
+            let mut res: Vec<String> = Vec::new();
+            match TcpStream::connect(("127.0.0.1", srv.redis)).await {
+                Err(e) => res.push(format!("{{\"broken\":{:?}}}", e.to_string())),
+                Ok(mut s) => {
+                    let _ = s.set_nodelay(true);
+                    for i in 0..ncmd {
+                        let r = LReq { key: key.clone(), b, count: 1, period: 1000, q: Some(1) };
+                        let raw = resp_cmd(&r, rng.below(1000));
+                        let mut failed = false;
+                        for byte in raw.iter() {
+                            if s.write_all(std::slice::from_ref(byte)).await.is_err() { failed = true; break; }
+                            let _ = s.flush().await;
+                            tokio::task::yield_now().await;
+                            if i % 2 == 0 { std::thread::sleep(Duration::from_micros(20)); }
+                        }
+                        if failed { res.push("{\"err\":\"write failed: connection closed by the server\"}".into()); break; }
+                        // read exactly one reply
+                        let mut buf = Vec::new();
+                        let mut tmp = [0u8; 512];
+                        let w = loop {
+                            if let Some(w) = parse_resp_reply(&buf) { break w; }
+                            match tokio::time::timeout(Duration::from_secs(5), s.read(&mut tmp)).await {
+                                Ok(Ok(0)) => break Wire::Err("resp:closed".into()),
+                                Ok(Ok(n)) => buf.extend_from_slice(&tmp[..n]),
+                                Ok(Err(e)) => break Wire::Err(format!("resp:io:{e}")),
+                                Err(_) => break Wire::Broken("no reply within 5 s".into()),
+                            }
+                        };
+                        res.push(w.json());
+                    }
+                }
+            }
+            format!("{{\"b\":{b},\"answers\":[{}]}}", res.join(","))
+        };
         // probes: fresh key, every protocol, fresh connections
         let b = rng.range(2, 5);
         let mut probes = Vec::new();
@@ -353,7 +392,7 @@ async fn poison(srv: &Server, rng: &mut Rng, cases: u64, tag: &str) {
             probes.push(format!("{{\"proto\":{proto},\"b\":{b},\"first\":{},\"second_other_proto\":{}}}", w1.json(), w2.json()));
         }
         let health = http_raw(srv.http, b"GET /health HTTP/1.1\r\nHost: x\r\nConnection: close\r\n\r\n", false).await.map(|(s, b)| s == 200 && b == "OK").unwrap_or(false);
-        println!("{{\"mode\":\"poison\",\"case\":{c},\"prefix\":[{}],\"probes\":[{}],\"health\":{health}}}", prefix.join(","), probes.join(","));
+        println!("{{\"mode\":\"poison\",\"case\":{c},\"prefix\":[{}],\"slow_client\":{slow},\"probes\":[{}],\"health\":{health}}}", prefix.join(","), probes.join(","));
     }
 }
 
